@@ -135,7 +135,113 @@ def tree_records(inputs):
         else:
             erridx = (ro.get("err") or {}).get("index", 0)
         recs.append({"id": i, "doc": doc, "scanned": scanned, "par": par, "erridx": erridx,
-                     "begins": begins, "nextpos": nextpos})
+                     "begins": begins, "nextpos": nextpos, "multi": False})
+    return recs, skipped
+
+
+def project_records(roots):
+    """Fixtures that use INCLUDE: the symbol sequence of the whole project with file boundaries ("fb" where an
+    INCLUDE line stands, "fe" where the included file ends), stitched from the real lexeme streams of the files,
+    together with the real forest.  roots: list of absolute paths.  Only the verdict and the parents are judged
+    (multi = TRUE): byte positions belong to several files."""
+    import posixpath
+    recs, skipped = [], 0
+    for root in roots:
+        base = os.path.dirname(root)
+        contents = {}
+        lexes = {}
+
+        def load(rel):
+            if rel in contents:
+                return True
+            p = os.path.join(base, rel)
+            if not os.path.isfile(p):
+                return False
+            contents[rel] = open(p, "rb").read()
+            o = harness("lex", [{"id": rel, "b64": b64(contents[rel])}])[rel]
+            if o.get("panic") or o["err_idx"] >= 0:
+                return False
+            lexes[rel] = [tuple(x) for x in o["lex"]]
+            return True
+        doc, keys = [], []
+        ok = True
+
+        def walk(rel, depth):
+            nonlocal ok
+            if depth > 6 or not load(rel):
+                ok = False
+                return
+            data, lx = contents[rel], lexes[rel]
+            k = 0
+            while k < len(lx) and ok:
+                t, b, e = lx[k]
+                if t == KW_TYPE:
+                    kw = data[b:e + 1].decode("latin1")
+                    if kw == "INCLUDE":
+                        if k + 1 >= len(lx) or lx[k + 1][0] != PARAM_TYPE:
+                            ok = False
+                            return
+                        pb, pe = lx[k + 1][1], lx[k + 1][2]
+                        name = data[pb:pe + 1].decode("latin1").strip('"')
+                        doc.append({"t": "fb", "k": "", "p": False})
+                        keys.append((rel, b))
+                        walk(posixpath.normpath(posixpath.join(posixpath.dirname(rel), name)), depth + 1)
+                        doc.append({"t": "fe", "k": "", "p": False})
+                        keys.append((rel, b))
+                        k += 2
+                        continue
+                    doc.append({"t": "kw", "k": "HTTP-response-code" if kw.isdigit() else kw, "p": False})
+                    keys.append((rel, b))
+                elif t == PARAM_TYPE:
+                    if doc and doc[-1]["t"] == "kw" and doc[-1]["k"] in ("GET", "POST", "PUT", "PATCH", "DELETE"):
+                        doc[-1]["p"] = True
+                elif t == OPEN_TYPE:
+                    doc.append({"t": "open", "k": "", "p": False})
+                    keys.append((rel, b))
+                elif t == CLOSE_TYPE:
+                    doc.append({"t": "close", "k": "", "p": False})
+                    keys.append((rel, b))
+                k += 1
+        rootrel = os.path.basename(root)
+        walk(rootrel, 0)
+        if not ok or not doc or len(doc) > 400:
+            skipped += 1
+            continue
+        ff = {rel: b64(c) for rel, c in contents.items()}
+        ro = harness("run", [{"id": "p", "files": ff, "root": rootrel, "want": ["forest"]}])["p"]
+        if ro["outcome"] in ("panic", "fatal", "timeout", "readerr"):
+            skipped += 1
+            continue
+        scanned = "scan" in ro["stages"]
+        par = [-1] * len(doc)
+        if scanned:
+            real = {}
+
+            def rec(n, parent):
+                key = (n.get("f") or rootrel, n["b"])
+                real[key] = parent
+                for c in n["c"]:
+                    rec(c, key)
+            for n in ro.get("forest") or []:
+                rec(n, None)
+            # one file included twice gives two nodes with one (file, begin): such projects are not judged here
+            kwkeys = [keys[k] for k, it in enumerate(doc) if it["t"] == "kw"]
+            if len(set(kwkeys)) != len(kwkeys):
+                skipped += 1
+                continue
+            k2i = {keys[k]: k + 1 for k, it in enumerate(doc) if it["t"] == "kw"}
+            good = True
+            for k, it in enumerate(doc):
+                if it["t"] == "kw":
+                    if keys[k] not in real:
+                        good = False
+                        break
+                    rp = real[keys[k]]
+                    par[k] = 0 if rp is None else k2i.get(rp, -2)
+            if not good or len(real) != len(k2i):
+                par = [-3] * len(doc)
+        recs.append({"id": os.path.relpath(root, common.REPO), "doc": doc, "scanned": scanned, "par": par, "erridx": 0,
+                     "begins": list(range(1, len(doc) + 1)), "nextpos": list(range(2, len(doc) + 2)), "multi": True})
     return recs, skipped
 
 
@@ -149,6 +255,10 @@ def validate_tree_traces(chk, limit=None, extra_inputs=None):
     inputs = [(os.path.relpath(f, common.REPO), open(f, "rb").read()) for f in files]
     inputs += extra_inputs or []
     recs, skipped = tree_records(inputs)
+    inc_roots = [f for f in fixture_files() if b"INCLUDE" in open(f, "rb").read()]
+    precs, pskipped = project_records(inc_roots)
+    chk.extra["fixture_projects_with_include"] = {"validated": len(precs), "skipped": pskipped}
+    recs += precs
     if not recs:
         raise Inconclusive("no fixture traces recorded")
     nd = "\n".join(json.dumps(r) for r in recs) + "\n"
